@@ -161,10 +161,10 @@ def run(chk):
     progs_exh = [p for p in progs_exh if any(c.get("f") == "<func>f" for c in p)]
     if chk.quick and len(progs_exh) > 600:
         progs_exh = rng.sample(progs_exh, 600)
-    sim, _ = gen.tlc_programs(alpha, 8, simulate=150 if chk.quick else 6000, seed=chk.seed, chk=chk, minlen=4,
+    sim, _ = gen.tlc_programs(alpha, 8, simulate=150 if chk.quick else 3000, seed=chk.seed, chk=chk, minlen=4,
                               typed=INPUTS)
     sim = [p for p in sim if len(p) >= 4 and any(c.get("f") == "<func>f" for c in p)]
-    rnd = [gen.random_program(rng, alpha, rng.randint(6, 10), typed=INPUTS) for _ in range(80 if chk.quick else 3000)]
+    rnd = [gen.random_program(rng, alpha, rng.randint(6, 10), typed=INPUTS) for _ in range(80 if chk.quick else 1500)]
     jobs = []
     for calls in progs_exh + sim + rnd:
         y = rng.choice([0, 1, 3])
